@@ -27,7 +27,7 @@ func runC03(c *core.Ctx) {
 		"then a fresh process loads and rebuilds, judged by the reference model and a from-scratch build; plus every failure pattern of up to 2 bodies. " +
 		"non-trivial = a crash or failure that left at least one target unfinished; distinct = distinct (scenario, point, label, n, limit)")
 	c.Assume("kill -9 of the build process; the file system itself does not lose completed writes (no power-loss model)")
-	n := c.N(14, 150)
+	n := c.N(10, 150)
 	var cases []string
 	for i := 0; i < n; i++ {
 		if id := fmt.Sprintf("scen/%d", i); c.Want(id) {
@@ -226,10 +226,10 @@ func c03Case(c *core.Ctx, id string) {
 			specs = append(specs, h)
 		}
 		sort.Strings(specs)
-		if (cpus == 4 || va.failing != nil) && len(specs) > 25 && c.Quick() {
+		if (cpus == 4 || va.failing != nil) && len(specs) > 20 && c.Quick() {
 			// limit 4 repeats the enumeration under real overlap; quick samples it
 			r.Shuffle(len(specs), func(a, b int) { specs[a], specs[b] = specs[b], specs[a] })
-			specs = specs[:25]
+			specs = specs[:20]
 		}
 		c.Max("max_crash_points_in_one_scenario", int64(len(specs)))
 		for _, spec := range specs {
